@@ -137,7 +137,11 @@ def check_param(P, tag, params, expect):
     P.check_eq("%s:value" % tag, prm.value.to_array(), vals, exact=True)
 
 
-JUNK = ["# a comment line", "", "   ", "FIX 0", "VERTEX_SE2", "EDGE_SE2_XYZ 1 2 3", "VERTEX_SE3 1 2 3 4", "PARAMS_CAMERAPARAMETERS 0 1 2 3"]
+JUNK = [
+    "# a comment line", "", "   ", "FIX 0", "VERTEX_SE2", "EDGE_SE2_XYZ 1 2 3", "VERTEX_SE3 1 2 3 4", "PARAMS_CAMERAPARAMETERS 0 1 2 3",
+    # characters that str.splitlines() treats as line breaks but a text file does not
+    "# old value:\x0cVERTEX_SE2 7 5 5 0.5", "# note\x1eVERTEX_XY 8 1 1", "# see\u2028VERTEX_TRACKXYZ 9 1 1 1", "VERTEX_XYZ 2 7 7 7", "VERTEX_SE2_PRIOR 1 9 9 1.5",
+]
 
 
 def _file_case(names, sepname, junk_positions, entry):
